@@ -7,9 +7,9 @@ exactly:
 
     aux    True for a blank or comment line (toks = () or (comment text,)); such a line is never broken
     indent leading whitespace
-    toks   the tokens of the line; gaps[i] is the (non-empty) whitespace run between toks[i] and toks[i+1]
-           tokens that are glued in the source (no whitespace between them) are ONE entry of toks - a line is only ever
-           broken where whitespace already exists between two tokens
+    toks   the tokens of the line; gaps[i] is the whitespace run between toks[i] and toks[i+1]; it is '' at a position where
+           the grammar allows optional blanks and the source has none (`else:` = else | :, `ff(x)` = ff | ( | x | ), see
+           lexemes()); a line is only ever broken, and blanks are only ever inserted, at a gap
     pre    whitespace between the last token and the continuation backslash (cont only)
     cont   the line ends with a continuation backslash
     trail  trailing whitespace (after the backslash when cont)
@@ -80,6 +80,7 @@ def corpus_line(src, eol):
             raise ValueError('continuation without a token: ' + src)
     if any(t == '' for t in toks):
         raise ValueError('empty token: ' + src)
+    toks, gaps = split_lexemes(toks, gaps)
     return mk(False, indent, toks, gaps, pre, cont, trail, eol, False)
 
 
@@ -97,6 +98,72 @@ def corpus_state(lines, eol='\n', final=True):
 # ---- quote scanner (shipped scripts; also cross-checked against the corpus notation) ------------------------------------
 
 _INCLUDE_SYS = re.compile(r'^include(\s+)(<[^>]*>)$')
+
+
+_LEX = re.compile(r'\.\.\.|\d+(?:\.\d*)?(?:e[+-]\d+)?|[A-Za-z_]\w*|\*\*|<=|>=|==|!=|&&|\|\||[*/%+\-<>=!(),:]')
+
+
+def _literal_end(text, i):
+    """Index just after the '...' / "..." literal or [bracket name] starting at text[i], or None."""
+    ch = text[i]
+    close = ']' if ch == '[' else ch
+    j = i + 1
+    n = len(text)
+    while j < n and text[j] != close:
+        if text[j] == '\\' and j + 1 < n and (text[j + 1] == close or (ch != '[' and text[j + 1] == '\\')):
+            j += 2
+        else:
+            j += 1
+    return None if j >= n else j + 1
+
+
+def lexemes(token, header):
+    """Split one whitespace-free token into the pieces between which the grammar allows optional blanks (zero there now):
+    `else:` -> else | :   `ff(x,y)` -> ff | ( | x | , | y | )   `args...):` -> args | ... | ) | :
+    Never split: inside literals and [names]; after a sign or `!` (`-1`, `!x`, `a` | `-b`); between the name and the `(` of a
+    function header (header=True). Anything unexpected: the token stays whole."""
+    raw = []
+    i = 0
+    while i < len(token):
+        if token[i] in '\'"[':
+            j = _literal_end(token, i)
+            if j is None:
+                return [token]
+        else:
+            m = _LEX.match(token, i)
+            if m is None:
+                return [token]
+            j = m.end()
+        raw.append(token[i:j])
+        i = j
+    out = []
+    stick = False
+    for k, lx in enumerate(raw):
+        glue = stick or (header and lx == '(' and k > 0 and raw[k - 1][0].isalpha())
+        if out and glue:
+            out[-1] += lx
+        else:
+            out.append(lx)
+        stick = lx in ('+', '-', '!')
+    return out
+
+
+def split_lexemes(toks, gaps):
+    """Expand whitespace-separated tokens into lexemes; the gap between two lexemes of one token is '' (an optional-blank
+    position). include lines are left alone (their target is not an expression)."""
+    if not toks or toks[0] == 'include':
+        return list(toks), list(gaps)
+    header = toks[0] == 'function' or (len(toks) > 1 and toks[0] == 'async' and toks[1] == 'function')
+    out_t, out_g = [], []
+    for k, tok in enumerate(toks):
+        if k:
+            out_g.append(gaps[k - 1])
+        parts = lexemes(tok, header)
+        for q, part in enumerate(parts):
+            if q:
+                out_g.append('')
+            out_t.append(part)
+    return out_t, out_g
 
 
 def scan_tokens(core):
@@ -180,7 +247,8 @@ def scan_line(text, eol):
     sc = scan_tokens(core)
     if sc is None:
         return mk(False, indent, (core,), (), pre, cont, trail, eol, False)
-    return mk(False, indent, sc[0], sc[1], pre, cont, trail, eol, False)
+    toks, gaps = split_lexemes(sc[0], sc[1])
+    return mk(False, indent, toks, gaps, pre, cont, trail, eol, False)
 
 
 def scan_state(text):
@@ -218,29 +286,59 @@ def physical_lines(state):
     return len(state[0])
 
 
+_WORDCH = re.compile(r'\w')
+_OPCH = '*/%+-<>=!&|'
+_LEAD_KEYWORDS = ('return', 'include', 'if', 'elif', 'while', 'for', 'function')
+
+
+def gap_is_optional(lex, k):
+    """May the whitespace between lex[k] and lex[k+1] of one logical line be removed? Decided from the statement kind and the
+    two neighbours only (conservative: 'no' keeps the text as written)."""
+    left, right = lex[k], lex[k + 1]
+    if _WORDCH.match(left[-1]) and _WORDCH.match(right[0]):
+        return False                                   # two words / numbers would fuse
+    if left[-1] in _OPCH and right[0] in _OPCH:
+        return False                                   # two operators would fuse, or a sign follows
+    first = 1 if lex[0] == 'async' else 0
+    if k == first and left in _LEAD_KEYWORDS:
+        return False                                   # keyword \s+ ...
+    if lex[0] == 'for' and left == 'in' and k in (2, 4):
+        return False                                   # for v [, i] in \s+ values
+    if lex[0].startswith('jump') and k == len(lex) - 2:
+        return False                                   # jumpif (...) \s+ label
+    return True
+
+
 def canonical_text(state):
-    """The sequence of logical lines of a state in the plainest layout: comment and blank lines dropped, the parts of a
-    continued line joined with one space, no indentation, no trailing whitespace, LF between lines, one str. This is the reference text: the property says the model depends on nothing else."""
+    """The sequence of logical lines of a state in the tightest layout: comment and blank lines dropped, the parts of a
+    continued line joined, every optional whitespace run removed (gap_is_optional), every other run kept as written (one space
+    at a join), no indentation, no trailing whitespace, LF between lines, one str. This is the reference text: the property
+    says the model depends on nothing else."""
     out = []
-    cur = None
+    lex, gaps = [], []
     for ln in state[0]:
         if ln[0]:
             continue
-        body = ''.join(tok if i == 0 else ln[3][i - 1] + tok for i, tok in enumerate(ln[2]))
-        if cur is None:
-            cur = body
-        else:
-            cur = cur + ' ' + body
+        if lex:
+            gaps.append(' ')
+        lex.extend(ln[2])
+        gaps.extend(ln[3])
         if not ln[5]:
-            out.append(cur)
-            cur = None
-    if cur is not None:
+            parts = [lex[0]]
+            for k in range(len(lex) - 1):
+                parts.append('' if gap_is_optional(lex, k) else (gaps[k] or ' '))
+                parts.append(lex[k + 1])
+            out.append(''.join(parts))
+            lex, gaps = [], []
+    if lex:
         raise ValueError('continuation pending at the end of the text')
     return '\n'.join(out)
 
 
 # ---- rewrites -----------------------------------------------------------------------------------------------------------
 
+OPT_BLANKS = [' ', '\t']       # what is inserted at an optional-blank position
+EMPTY_GAP_BREAKS = (2, 4)       # break styles used at an optional-blank position: tight, blank only after
 INDENTS = ['', '  ', '\t']
 TRAILS = ['  ', '\t']
 INSERTS = [('', ''), ('', '# comment'), ('    ', '# comment'), ('', '# tail \\')]
@@ -290,8 +388,17 @@ def rewrites(state):
                 out.append(['trail', i, k])
     for i, ln in enumerate(lines):
         if not ln[0]:
-            for g in range(len(ln[3])):
-                for v in range(len(BREAKS)):
+            for g in optional_gaps(state, i):
+                if ln[3][g]:
+                    out.append(['tight', i, g])
+                else:
+                    for k in range(len(OPT_BLANKS)):
+                        out.append(['opt', i, g, k])
+    for i, ln in enumerate(lines):
+        if not ln[0]:
+            for g, ws in enumerate(ln[3]):
+                # at an optional-blank position (no whitespace now) a break has nothing to keep before the backslash
+                for v in (range(len(BREAKS)) if ws else EMPTY_GAP_BREAKS):
                     out.append(['brk', i, g, v])
     return out
 
@@ -365,6 +472,22 @@ def apply(state, desc):
             return None
         new[i] = mk(*ln[:6], TRAILS[desc[2]], ln[7], ln[8])
         return (tuple(new), aslist)
+    if kind == 'opt':
+        g = desc[2]
+        if ln[0] or not 0 <= g < len(ln[3]) or ln[3][g]:
+            return None
+        gaps = list(ln[3])
+        gaps[g] = OPT_BLANKS[desc[3]]
+        new[i] = mk(ln[0], ln[1], ln[2], gaps, *ln[4:9])
+        return (tuple(new), aslist)
+    if kind == 'tight':
+        g = desc[2]
+        if g not in optional_gaps(state, i) or not ln[3][g]:
+            return None
+        gaps = list(ln[3])
+        gaps[g] = ''
+        new[i] = mk(ln[0], ln[1], ln[2], gaps, *ln[4:9])
+        return (tuple(new), aslist)
     if kind == 'brk':
         g = desc[2]
         if ln[0] or not 0 <= g < len(ln[3]):
@@ -400,6 +523,52 @@ def break_gaps(state, i, subset, variant_of=lambda k: 0):
     parts.append(mk(False, indent, ln[2][start:], ln[3][start:], ln[4], ln[5], ln[6], ln[7], ln[8]))
     new = list(lines)
     new[i:i + 1] = parts
+    return (tuple(new), aslist)
+
+
+def optional_gaps(state, i):
+    """Gap indices of line i where whitespace is optional: the positions that have none now, and the whitespace runs
+    gap_is_optional() allows to remove. Lines that belong to a continued logical line only offer the former (the statement
+    kind of a part is not known from the part alone)."""
+    lines = state[0]
+    ln = lines[i]
+    if ln[0]:
+        return []
+    empty = [g for g, ws in enumerate(ln[3]) if not ws]
+    prev = next((lines[j] for j in range(i - 1, -1, -1) if not lines[j][0]), None)
+    if ln[5] or (prev is not None and prev[5]):
+        return empty
+    return [g for g in range(len(ln[3])) if not ln[3][g] or gap_is_optional(ln[2], g)]
+
+
+def assign_optional(state, i, chosen, blank_of=lambda k: ' '):
+    """Line i with a blank at the optional gaps listed in `chosen` and no whitespace at all its other optional gaps."""
+    lines, aslist = state
+    ln = lines[i]
+    gaps = list(ln[3])
+    k = 0
+    for g in optional_gaps(state, i):
+        if g in chosen:
+            gaps[g] = blank_of(k)
+            k += 1
+        else:
+            gaps[g] = ''
+    new = list(lines)
+    new[i] = mk(ln[0], ln[1], ln[2], gaps, *ln[4:9])
+    return (tuple(new), aslist)
+
+
+def fill_gaps(state, i, subset, blank_of=lambda k: ' '):
+    """Insert a blank at every (empty) gap index of `subset` of line i at once."""
+    lines, aslist = state
+    ln = lines[i]
+    gaps = list(ln[3])
+    for k, g in enumerate(sorted(subset)):
+        if gaps[g]:
+            raise ValueError('not an optional-blank position')
+        gaps[g] = blank_of(k)
+    new = list(lines)
+    new[i] = mk(ln[0], ln[1], ln[2], gaps, *ln[4:9])
     return (tuple(new), aslist)
 
 
